@@ -377,7 +377,7 @@ C17_History(s, e, t) ==
     LET vs == t.values[f]
         lh == t.feeds[f].lh
     IN /\ Len(vs) <= lh
-       /\ \A i \in 1..(Len(vs) - 1) : vs[i].t > vs[i + 1].t
+       /\ \A i \in 1..(Len(vs) - 1) : vs[i].t >= vs[i + 1].t
        /\ t.fmtBad = 0
        /\ f \in DOMAIN s.feeds =>
             LET new == IF f \in Appending(s, e, t) THEN 1 ELSE 0
